@@ -567,6 +567,8 @@ class H2Server(Peer):
                 self.order.append(ev.stream_id)
                 if self.goaway_sent:
                     self.streams_after_goaway.append(ev.stream_id)
+                if self.policy is not None and hasattr(self.policy, "on_headers"):
+                    self.policy.on_headers(self, ev.stream_id)
             elif isinstance(ev, h2.events.DataReceived):
                 st = self.streams[ev.stream_id]
                 st["body"] += ev.data
@@ -604,7 +606,8 @@ class H2Server(Peer):
         if body is None:
             body = b"tok=" + tok
         self.streams[stream_id]["responded"] = True
-        self.conn.send_headers(stream_id, [(b":status", status), (b"x-token", tok)] + (extra or []))
+        if not self.streams[stream_id].get("early"):
+            self.conn.send_headers(stream_id, [(b":status", status), (b"x-token", tok)] + (extra or []))
         pos = 0
         for n in frames or []:
             if n > 0 and pos < len(body):
